@@ -19,7 +19,7 @@ ASSUMPTIONS = ["operations inserted with insert_at are not wired to classical re
                "quantum wires only, classical wires must merely stay single paths",
                "group_one_qubit_gates groups unitary one-qubit gates; a Z-measurement ends a run"]
 REQUIRED_CLASSES = {"history": ["insert", "insert2", "remove", "replace", "group", "unwrap", "rmid", "copy", "addreg", "register_adding_add", "edges_ordered_through_classical_wire_only", "user_label",
-                                "same_class_replace_changes_label"]}
+                                "same_class_replace_changes_label", "source_checked_after_editing_copy"]}
 
 UNITARY1 = set(gc.ONE) | {"W"}
 
@@ -264,6 +264,7 @@ def check_history(case, sub="history"):
     circ = guarded(sub, "plain", CircuitDAG, n_emitter=ne, n_photon=np_, n_classical=nc)
     M = Model(ne, np_, nc)
     cl = set()
+    left_behind = []
     seen_insert = seen_remove_after = nontrivial = False
 
     def new_node(before):
@@ -532,6 +533,9 @@ def check_history(case, sub="history"):
             circ2 = guarded(sub, "plain", circ.copy)
             if circ2 is circ or circ2.dag is circ.dag:
                 raise Violation(sub, "copy-aliased", "copy", "plain", "copy shares the DAG")
+            # the object copied from is kept: later edits of the copy must leave it exactly as it was
+            left_behind.append((circ, _copy.deepcopy(M)))
+            del left_behind[:-2]
             circ = circ2
             cl.add("copy")
             site = "copy"
@@ -550,6 +554,13 @@ def check_history(case, sub="history"):
         # nodes that an edit removed or rebuilt (unwrap, group, identity removal) have no known label status any more
         M.fixed = {k: v for k, v in M.fixed.items() if k in M.desc and (k not in known or known[k] == id(M.desc[k]) or op in ("add", "insert", "replace"))}
         verify(circ, M, sub, site, step)
+        if left_behind and op != "copy":
+            for old_circ, old_model in left_behind:
+                try:
+                    verify(old_circ, old_model, sub, site, step)
+                except Violation as v_:
+                    raise Violation(sub, "copy-aliased", site, "plain", "an edit of a copy changed the circuit it was copied from: %s" % (str(v_)[:300],))
+            cl.add("source_checked_after_editing_copy")
     return Info(nontrivial=nontrivial, classes=sorted(cl))
 
 
